@@ -541,6 +541,15 @@ class SB:
     def __invert__(self):
         return SB(z3.Not(self.e))
 
+    def __neg__(self):
+        return -self._r()
+
+    def __sub__(self, o):
+        return self._r() - o
+
+    def __rsub__(self, o):
+        return o - self._r()
+
     def __eq__(self, o):
         return SB(self.e == SB._e(o))
 
